@@ -77,7 +77,7 @@ def flip_variants( src ):
             if not ( _pure( a ) and _pure( b )):
                 continue
             raw = lines[n.lineno-1].encode( 'utf-8' )
-            new = '( %s %s %s )' % ( ast.unparse( b ), FLIP[type( n.ops[0] )], ast.unparse( a ))
+            new = '( ( %s ) %s ( %s ) )' % ( ast.unparse( b ), FLIP[type( n.ops[0] )], ast.unparse( a ))	# operands parenthesised: unparse drops the source's own ( ... ) around a conditional / lambda operand
             line = ( raw[:n.col_offset] + new.encode() + raw[n.end_col_offset:] ).decode( 'utf-8' )
             yield 'flip L%d: %s' % ( n.lineno, ast.unparse( n )[:60] ), '\n'.join( lines[:n.lineno-1] + [ line ] + lines[n.lineno:] )
 
